@@ -31,6 +31,7 @@ def run(ck, fb):
     r03l(ck, fb)
     r03m(ck, fb)
     r03n(ck, fb)
+    r03p(ck, fb)
     ck.borrow('rules.c02', {'R02a': 'R03h'}, 'the index-area rewind of strip_log_to sizes what write() stored')
 
 
@@ -497,3 +498,62 @@ def r03n(ck, fb, R='R03n'):
     leaks = [x for x in b.return_blocks() if x in r]
     ck.require(not leaks, R, 'delete_logs_from:ok-only-after-strip-request', b.where(leaks[0]) if leaks else b.where(),
                'delete_logs_from can answer Ok without having sent StripLogToIndex: a truncation is reported as done although nothing was cut', 'no Ok without the request')
+
+
+def r03p(ck, fb, R='R03p'):
+    ck.rule(R, '"the log stays readable and appendable after a truncation, whether it lives in one file or in several": a truncation whose cut point lies in '
+               'an earlier file makes that file the current one again while its range keeps is_close / record_count of the time it was closed (known '
+               'finding R03c: strip_log_to_index does not reset them), and the re-appended entries can carry it past that recorded end. As long as that '
+               'holds, a read (query, load, replay) must not use the RECORDED END of a listed file to leave it out: in get_query_log_actors, '
+               'get_load_log_actors and load_record a file is still selected when the read starts above its recorded end (start_index < recorded end '
+               '< start < end; decided by walking the compiled selection test under that order). Only "the read ends at or before start_index" may '
+               'exclude a file - the first index of a file never goes stale')
+    LM = 'rnacos::raft::filestore::raftlog::RaftLogManager::'
+    st = fb.bodies.get(LM + 'strip_log_to_index')
+    resets = st is not None and any(f in ('is_close', 'record_count') for x in util.region(fb, st, 2) for (o, f, bb, s0) in x.field_writes())
+    if resets:
+        ck.ok(R, 'recorded-end-kept-current', st.where(), 'the truncation resets is_close / record_count of the re-opened range: the recorded end can be trusted, rule not armed')
+        return
+    from rn import walk
+    rank = {'start_index': 0, 'range_end': 1, 'start': 2, 'end': 3}
+    n = 0
+    for fn in ('get_query_log_actors', 'get_load_log_actors', 'load_record'):
+        b = ck.body(LM + fn, R)
+        if not b:
+            continue
+        names = {l: b.local_name(l) for l in range(1, b.argc + 1)}
+
+        def who(op):
+            d = cfg.strip_calls(b, cfg.describe_operand(b, op))
+            if d['k'] == 'arg' and names.get(d['l']) in ('start', 'end'):
+                return names[d['l']]
+            if d['k'] == 'call' and (cfg.callee_name(d['term']) or '').endswith('get_log_range_end_index'):
+                return 'range_end'
+            if d['k'] == 'place' and d['fields'][-1:] == ['start_index']:
+                return 'start_index'
+            return None
+
+        class Env(dict):
+            def __contains__(self, k):
+                return isinstance(k, tuple) and len(k) == 3
+            def __getitem__(self, k):
+                op, a, c = k
+                x, y = rank[a], rank[c]
+                return {'Lt': x < y, 'Le': x <= y, 'Gt': x > y, 'Ge': x >= y, 'Eq': x == y, 'Ne': x != y}[op]
+
+        def classify(d, term):
+            if d['k'] == 'bin' and d['op'] in ('Lt', 'Le', 'Gt', 'Ge', 'Eq', 'Ne'):
+                a, c = who(d['a']), who(d['b'])
+                if a and c:
+                    return ('bool', (d['op'], a, c))
+            return None
+        sel = [s0.bb for s0 in b.calls(r'Vec::<.*>::push$|RaftLogManager::create_log_actor$')] + \
+              [s0.bb for (s0, m0, v0, a0) in util.sends(b, r'RaftLogRequest$')]
+        ck.floor(R, 'selection sites in %s' % fn, len(sel), 1)
+        r = walk.walker(b, classify, Env())
+        n += 1
+        ck.require(any(x in r for x in sel), R, '%s:recorded-end-does-not-exclude' % fn, b.where(),
+                   '%s leaves a log file out of a read that starts above the file\'s RECORDED end (start_index + record_count of the time it was closed): '
+                   'after a truncation into that file and shorter re-appended entries the file holds entries beyond that end - they were accepted and '
+                   'acknowledged, and get_log_entries returns none of them' % fn, 'selected')
+    ck.floor(R, 'read paths judged', n, 3)
